@@ -52,6 +52,14 @@ def pErrVal : List String → Option (ErrVal × List String)
     let t ← parseHexArg t
     let m ← parseHexArg m
     pure (.rpc t m, r)
+  | "rpcfull" :: t :: m :: rid :: k :: tb :: r => do
+    let t ← parseHexArg t
+    let m ← parseHexArg m
+    let rid ← parseHexArg rid
+    let k ← parseHexArg k
+    let tb ← parseHexArg tb
+    pure (.rpcFull t m rid k tb, r)
+  | "shared" :: n :: r => n.toNat?.map fun n => (.shared n, r)
   | "plain" :: m :: r => (parseHexArg m).map fun m => (.plain m, r)
   | "wrap" :: m :: r => (parseHexArg m).map fun m => (.wrapped m, r)
   | _ => none
